@@ -101,9 +101,16 @@ class StringContainsToConcat:
         return node.has_ident() and node.get_ident() == 'str.contains'
 
     def global_mutations(self, node, input_):
+        if len(node) != 3:
+            return []
         var = node[1]
+        # the names of the fresh variables are derived from ``var``
+        if not var.is_leaf() or is_const(var) or is_piped_symbol(var):
+            return []
         k1 = f'{var}_prefix'
         k2 = f'{var}_suffix'
+        if is_var(Node(k1)) or is_var(Node(k2)):
+            return []
         vars = [
             Node('declare-const', k1, 'String'),
             Node('declare-const', k2, 'String'),
